@@ -1,19 +1,19 @@
 pub mod c02;
+pub mod c06;
+pub mod c15;
+pub mod c17;
 
 use crate::evidence::{Report, Tier};
 
 pub type CheckFn = fn(Tier) -> Report;
+pub type ReplayFn = fn(&serde_json::Value) -> Result<(), String>;
 
-pub fn lookup(id: &str) -> Option<CheckFn> {
+pub fn lookup(id: &str) -> Option<(CheckFn, ReplayFn)> {
     match id {
-        "C02" => Some(c02::run),
-        _ => None,
-    }
-}
-
-pub fn replay(id: &str, v: &serde_json::Value) -> Option<Result<(), String>> {
-    match id {
-        "C02" => Some(c02::replay(v)),
+        "C02" => Some((c02::run, c02::replay)),
+        "C06" => Some((c06::run, c06::replay)),
+        "C15" => Some((c15::run, c15::replay)),
+        "C17" => Some((c17::run, c17::replay)),
         _ => None,
     }
 }
